@@ -206,7 +206,18 @@ pub fn exec(sc: &Scenario, st: &mut Stats) -> Option<Violation> {
                 for _ in 0..(*times).max(1) {
                     // lossless only if no value had to be written as `null` (NaN/inf become null, and an Option holding
                     // one would silently come back as None) - those states are skipped, not judged
-                    let back = on(Side::Subject, || node.save_json().ok().filter(|t| !t.contains("null")).and_then(|t| node.load_json(&t).ok()));
+                    // ... but a text without `null` carries the complete state, and the library must be able to read back
+                    // what it has just written (a writer/reader disagreement on field names is invisible to bincode)
+                    let back = match on(Side::Subject, || node.save_json().ok().filter(|t| !t.contains("null"))) {
+                        None => None,
+                        Some(t) => match on(Side::Subject, || node.load_json(&t)) {
+                            Ok(b) => Some(b),
+                            Err(e) => {
+                                let shown: String = t.chars().take(400).collect();
+                                return Some(viol("serde-error", kind, i, format!("serde_json cannot read back the text the same instance has just written: {}", e), vec!["Ok".into()], vec![e, shown]));
+                            }
+                        },
+                    };
                     match back {
                         Some(b) => {
                             node = b;
